@@ -214,6 +214,10 @@ def anchors_font(rng):
               ("ka_ssa-deva", None), ("ka-deva.alt", None)]
         marks = ["anusvara-deva", "nukta-deva", "vsignu-deva"]
         ligs = ["ka_ssa-deva"]
+        if rng.random() < 0.5:
+            # glyphs of a SECOND Indic script that the feature file does not declare (only dev2 is): they still take marks
+            gl += [("ka-beng", 0x995), ("candrabindu-beng", 0x981)]
+            marks.append("candrabindu-beng")
     else:
         gl = [("a", 0x61), ("e", 0x65), ("o", 0x6F), ("A", 0x41), ("f_i", None), ("f_f_i", None), ("acutecomb", 0x301),
               ("gravecomb", 0x300), ("dotbelowcomb", 0x323), ("ogonekcomb", 0x328), ("a.alt", None), ("period", 0x2E)]
